@@ -16,16 +16,30 @@
 (*    specification applies the very same operators to the matrices        *)
 (*    recorded from the real code.                                         *)
 (*                                                                         *)
-(* `Dev` is the set of KNOWN DEVIATIONS of the pinned code from the        *)
+(* `Dev` is the set of KNOWN DEVIATIONS of the code as it is from the       *)
 (* intended design (DESIGN.md section 2): with Dev = {} all laws hold;     *)
 (* with a deviation enabled the operators describe what the code does.     *)
+(* State of the code: after the fixes bee086b..1991def (add_subclass_edge  *)
+(* clears the TypeSystem caches, add_generator clears the provider caches, *)
+(* subtype_distance(None, None) = 0 and unions below None / tuples, class  *)
+(* path required between generic instances).  What is left:                *)
+(*   DistCovariantArgs   subtype_distance of two generic instances adds    *)
+(*       the distances of the type arguments covariantly (list[A] ->       *)
+(*       list[B] is 1 for B a subclass of A) although is_subtype /         *)
+(*       is_maybe_subtype treat list/set/dict as invariant                 *)
+(*   DistUndefinedForAnyBelowNoneOrTuple   an Any subtype has no distance  *)
+(*       to a None / tuple supertype (it has any_distance to an instance)  *)
+(*   PrimitiveRequestEmpty   GeneratorProvider offers nothing for a        *)
+(*       primitive request                                                 *)
+(*   NoProviderClearOnAddEdge   add_subclass_edge leaves the provider      *)
+(*       caches (_get_generators_for, _get_for_type) untouched             *)
 (***************************************************************************)
 EXTENDS Naturals, Integers, Sequences, FiniteSets, TLC
 
 Undef == -1      \* "no distance" (Python None)
 
-AllDeviations == {"DistGenericArgsOnly", "DistUndefinedForNoneOrTuple",
-                  "PrimitiveRequestEmpty", "NoClearOnAddEdge", "NoClearOnAddGenerator"}
+AllDeviations == {"DistCovariantArgs", "DistUndefinedForAnyBelowNoneOrTuple",
+                  "PrimitiveRequestEmpty", "NoProviderClearOnAddEdge"}
 
 (* ------------------------------------------------------------------ classes *)
 BuiltinClasses == {"object", "bool", "int", "float", "complex", "str", "list", "set", "dict"}
@@ -108,34 +122,41 @@ MinDef(q) ==     \* minimum of the defined entries, Undef if there is none
 
 (* subtype_distance(supertype t, subtype s).  Intended design (Dev = {}): defined exactly    *)
 (* when MaybeSub(s, t), number of subclass steps, summed over arguments, minimum over union  *)
-(* members, anyd from/to Any.                                                                *)
+(* members, anyd from/to Any.  The code (_SubtypeDistanceVisitor) differs in two places:     *)
+(* visit_none_type / visit_tuple_type know None / tuple and union subtypes but not an Any    *)
+(* subtype, and visit_instance on two generic instances requires a path between the classes  *)
+(* and adds the distances of the type arguments pairwise, i.e. covariantly.                  *)
 RECURSIVE DistR(_, _, _, _)
 DistR(H, Dev, t, s) ==
   CASE t.k = "any" -> H.anyd
     [] t.k = "union" -> MinDef([i \in DOMAIN t.a |-> DistR(H, Dev, t.a[i], s)])
     [] t.k = "none" ->
-         IF "DistUndefinedForNoneOrTuple" \in Dev THEN Undef  \* visit_none_type returns None
-         ELSE CASE s.k = "none" -> 0
-                [] s.k = "any" -> H.anyd
-                [] s.k = "union" -> MinDef([j \in DOMAIN s.a |-> DistR(H, Dev, t, s.a[j])])
-                [] OTHER -> Undef
+         CASE s.k = "none" -> 0
+           [] s.k = "any" ->    \* visit_none_type: falls through to `return None`
+                IF "DistUndefinedForAnyBelowNoneOrTuple" \in Dev THEN Undef ELSE H.anyd
+           [] s.k = "union" -> MinDef([j \in DOMAIN s.a |-> DistR(H, Dev, t, s.a[j])])
+           [] OTHER -> Undef
     [] t.k = "tuple" ->
          CASE s.k = "tuple" ->
                 IF Len(s.a) = Len(t.a)
                 THEN SumDef([i \in DOMAIN t.a |-> DistR(H, Dev, t.a[i], s.a[i])]) ELSE Undef
-           [] s.k \in {"any", "union"} ->
-                IF "DistUndefinedForNoneOrTuple" \in Dev THEN Undef \* visit_tuple_type: else None
-                ELSE IF s.k = "any" THEN H.anyd
-                ELSE MinDef([j \in DOMAIN s.a |-> DistR(H, Dev, t, s.a[j])])
+           [] s.k = "any" ->    \* visit_tuple_type: falls through to `return None`
+                IF "DistUndefinedForAnyBelowNoneOrTuple" \in Dev THEN Undef ELSE H.anyd
+           [] s.k = "union" -> MinDef([j \in DOMAIN s.a |-> DistR(H, Dev, t, s.a[j])])
            [] OTHER -> Undef
     [] t.k = "inst" ->
          CASE s.k = "inst" ->
                 IF Len(t.a) > 0 /\ Len(s.a) > 0
                 THEN \* both carry type arguments
-                     IF \/ "DistGenericArgsOnly" \in Dev   \* the code looks at the arguments only
-                        \/ MaybeSub(H, s, t)               \* intended: classes and invariance count
-                     THEN SumDef([i \in 1..MinI(Len(t.a), Len(s.a)) |-> DistR(H, Dev, t.a[i], s.a[i])])
-                     ELSE Undef
+                     IF "DistCovariantArgs" \in Dev
+                     THEN \* the code: class distance (must exist) + sum over the zipped arguments
+                          LET p == H.plen[t.c][s.c]
+                              q == SumDef([i \in 1..MinI(Len(t.a), Len(s.a)) |-> DistR(H, Dev, t.a[i], s.a[i])])
+                          IN IF p = Undef \/ q = Undef THEN Undef ELSE p + q
+                     ELSE \* intended: classes and invariance count
+                          IF MaybeSub(H, s, t)
+                          THEN SumDef([i \in 1..MinI(Len(t.a), Len(s.a)) |-> DistR(H, Dev, t.a[i], s.a[i])])
+                          ELSE Undef
                 ELSE H.plen[t.c][s.c]
            [] s.k = "union" -> MinDef([j \in DOMAIN s.a |-> DistR(H, Dev, t, s.a[j])])
            [] s.k = "any" -> H.anyd
